@@ -25,7 +25,7 @@ theorem c08_result_comp {b : List Nat} {s s' : St} {a : Act} (h : Reach lts (ini
     intro hr
     rcases (hi.early (Or.inl hr)).2.2.2 with h1 | h1 | h1
     · exact Or.inl h1
-    · rcases h3.booting h1 with h2 | h2 <;> rw [hr] at h2 <;> cases h2
+    · rcases h3.booting h1 with h2 | h2 | h2 <;> rw [hr] at h2 <;> cases h2
     · exact Or.inr h1
   have hfail := h3.failing
   cases a <;> simp only [step] at hs
